@@ -23,7 +23,7 @@ func TestBoundaryMatrix(t *testing.T) {
 	sh, n := core.Shard()
 	plain := *cfg
 	plain.Start = false
-	pc, _ := om.Matrix(&plain, sh, n)
+	pc, st := om.Matrix(&plain, sh, n)
 	wasm, err := om.Assemble(pc.Wat)
 	if err != nil {
 		t.Fatalf("harness: assembler rejected the matrix module: %v", err)
@@ -69,6 +69,8 @@ func TestBoundaryMatrix(t *testing.T) {
 	s.Counter("matrix/cells", int64(len(oc.Calls)))
 	s.Counter("matrix/cells_with_boundary_operand", int64(boundary))
 	s.Counter("matrix/trapping_cells_dropped", int64(traps))
+	s.Counter("matrix/cells_excluded_by_known", int64(st.Excluded))
+	s.Counter("matrix/instructions", int64(st.Ops))
 	if len(oc.Calls) > 0 {
 		k := len(oc.Calls) / 2
 		s.Sample(map[string]interface{}{"cell": om.Describe(oc, k), "stdout_lines": v.lines, "exit": fmt.Sprintf("%s %d", v.wz.End, v.wz.Code)})
